@@ -10,10 +10,14 @@ THEOREMS = [
     "GoaktVerif.C15.C15_cross_witness",
     "GoaktVerif.C15.C15_refuted",
     "GoaktVerif.C15.C15_refuted_ownReply",
+    "GoaktVerif.C15.finv_init",
+    "GoaktVerif.C15.finv_step",
+    "GoaktVerif.C15.finv_timeout",
+    "GoaktVerif.C15.C15_fixed_ownReply",
 ]
 MANIFEST = {
     "level_text": "Kernel-checked refutation of both clauses on a small-step model of PID.Ask / ReceiveContext.build / Response / the contextCh and responseCh pools / UnboundedMailbox's recycling of the previous sentinel (any number of callers, deadlines as explicit steps): C15_loss_witness — a caller's late responseClosed.Store(true) hits a context already recycled and rebuilt for another Ask whose in-time reply is then dropped (24-step schedule); C15_cross_witness — a responder past its CAS sends into a response channel the timed-out caller already pooled and the next Ask took (10 steps). The model is tied to the current code step-for-step (same atomic-site labels, results, final pool digest) by running the REAL PID.Ask, build, Response, pools and mailbox on a bare PID under controlled schedules; deadlines are explicit context cancellations, never wall clock. The loss witness is replayed on the real code on every run (finding C15-F1).",
-    "level_note": "Partial: the property is false of the current code (C15-F1 replayed on the real code; C15-F2 proved on the model only because the window lies between a CAS and a channel send, where yieldinject has no schedule point). The partial theorem for runs without pooled reuse is being added. Not modelled: the dispatcher (the harness plays the single worker: Dequeue + Response), remote Ask, SendSync/BatchAsk wrappers (they call PID.Ask), the grain Ask path (same pattern in grain_context.go/grain_engine.go, not tied). Trusted: a select with a ready reply takes the reply (the harness never makes both branches ready).",
+    "level_note": "Partial: the property is false of the current code (C15-F1 replayed on the real code; C15-F2 proved on the model only because the window lies between a CAS and a channel send, where yieldinject has no schedule point). Positive theorem: C15_fixed_ownReply - for the repaired protocol (Mode.fixed = fixes/C15-ask-no-late-store.diff, tied to the patched tree in the self-test, both pools still in use) every reply an Ask receives is its own, for EVERY schedule, any number of callers, single consumer (inductive invariant FInv: linear ownership of receive contexts, a pooled channel is empty and referenced by no pending request; finv_init / finv_step / finv_timeout). The no-loss clause for the repaired protocol is not yet a theorem (it holds on the two refutation schedules and on 7500 search schedules on the patched code). Not modelled: the dispatcher (the harness plays the single worker: Dequeue + Response), remote Ask, SendSync/BatchAsk wrappers (they call PID.Ask), the grain Ask path (same pattern in grain_context.go/grain_engine.go, not tied). Trusted: a select with a ready reply takes the reply (the harness never makes both branches ready).",
     "technique": "Lean 4 small-step model replayed against the real code under controlled schedules (yield injection), refutation by kernel evaluation of concrete schedules",
 }
 TRUSTED = [
